@@ -286,6 +286,11 @@ func genHistory(rng *rand.Rand, firstNotBeforeT bool) (time.Time, time.Time, []o
 	var obs []obsSpec
 	limit := int64(3*weekMs + 2*dayMs)
 	n := 8 + rng.Intn(50)
+	if rng.Intn(5) == 0 {
+		// a long session: up to ten weeks, many rollovers
+		limit = int64(4+rng.Intn(7)) * weekMs
+		n = 60 + rng.Intn(120)
+	}
 	for len(obs) < n {
 		c := cons[rng.Intn(ncon)]
 		mt := conTypes[c][rng.Intn(2)]
@@ -334,7 +339,11 @@ func genHistory(rng *rand.Rand, firstNotBeforeT bool) (time.Time, time.Time, []o
 			}
 		} else {
 			next := weekStart(c, prev) + weekMs // next rollover of c
-			switch r := rng.Intn(20); {
+			r0 := rng.Intn(20)
+			if limit > 4*weekMs && r0 < 8 && rng.Intn(2) == 0 {
+				r0 = 16 + rng.Intn(4) // long sessions advance mostly by days
+			}
+			switch r := r0; {
 			case r < 8:
 				u = prev + 1000*int64(rng.Intn(3))
 			case r < 12:
